@@ -14,6 +14,12 @@ G3 = {"flavor": "f64", "kind": "gauge", "threads": ["t1", "t2", "t3"],
 J3 = dict(G3, flavor="int", kind="intgauge")
 
 
+G2s = dict(G2, scale=2.0 ** -60)
+# integer gauge next to the i64 boundaries: add/inc wrap around and sub/dec wrap back ("sub(x) undoes add(x)")
+J2max = dict(J2, base=2 ** 63 - 3)
+J2bmin = dict(J2b, base=-(2 ** 63) + 1)
+
+
 def run(ctx):
     exe = build_harness()
     stats, samples = new_stats(), []
@@ -21,14 +27,18 @@ def run(ctx):
     if ctx.quick:
         for sc, lb in ((G2, "G2"), (G2b, "G2b"), (J2, "J2"), (J2b, "J2b")):
             run_scenario(ctx, "C11", exe, sc, lb, stats, samples, *O, model=True, nrandom=100)
+        for sc, lb in ((G2s, "G2s"), (J2max, "J2max"), (J2bmin, "J2bmin")):
+            run_scenario(ctx, "C11", exe, sc, lb, stats, samples, *O, model=True, nrandom=50)
     else:
+        for sc, lb in ((G2s, "G2s"), (J2max, "J2max"), (J2bmin, "J2bmin"), (dict(G2b, scale=2.0 ** -1070), "G2bs"), (dict(J3, base=2 ** 63 - 2), "J3max")):
+            run_scenario(ctx, "C11", exe, sc, lb, stats, samples, *O, model=True, nrandom=3000)
         for sc, lb in ((G2, "G2"), (G2b, "G2b"), (J2, "J2"), (J2b, "J2b")):
             run_scenario(ctx, "C11", exe, sc, lb, stats, samples, *O, model=True, nrandom=3000)
         run_scenario(ctx, "C11", exe, G3, "G3", stats, samples, *O, model=True, nrandom=15000)
         run_scenario(ctx, "C11", exe, J3, "J3", stats, samples, *O, model=True, nrandom=15000)
     finish_cov(ctx, stats, samples, "AtomImpl exhaustively checked by TLC (Atomicity = refinement of the atomic gauge, Termination; also with spurious CAS failure); "
                "every edge replayed in the real Gauge/IntGauge; every distinct history judged by LinGauge (linearizability incl. the final value)")
-    ctx.assumptions += ["sequentially consistent executions", "2-3 threads, 3 calls each, amounts from {1,2,4,8}"]
+    ctx.assumptions += ["sequentially consistent executions", "2-3 threads, 3 calls each, amounts from {1,2,4,8}; float gauges also at scale 2^-60, integer gauges also offset to the i64 boundaries (wrapping)"]
 
 
 def replay(path):
